@@ -102,6 +102,12 @@ func (lm *ListenerMux) Start() {
 					atomic.AddInt32(&lm.onlineA, -1)
 					listenerB.chEvent <- event{err: nil, conn: c}
 				}
+				if lm.shutdown {
+					// Stop ran meanwhile and may have drained the queues
+					// before this connection was put in.
+					listenerA.drain()
+					listenerB.drain()
+				}
 			}
 		}(k, v.a, v.b)
 	}
@@ -121,6 +127,11 @@ func (lm *ListenerMux) Stop() {
 		_ = ab.b.Close()
 	}
 	close(lm.chClose)
+	// Connections that were accepted but not yet handed out belong to nobody.
+	for _, ab := range lm.listeners {
+		ab.a.drain()
+		ab.b.drain()
+	}
 }
 
 // DecreaseOnlineA decreases the online num of ChanListener A.
@@ -147,6 +158,22 @@ func (l *ChanListener) Accept() (net.Conn, error) {
 		return e.conn, e.err
 	case <-l.chClose:
 		return nil, net.ErrClosed
+	}
+}
+
+// drain closes the connections that are still queued.
+//
+//go:norace
+func (l *ChanListener) drain() {
+	for {
+		select {
+		case e := <-l.chEvent:
+			if e.conn != nil {
+				_ = e.conn.Close()
+			}
+		default:
+			return
+		}
 	}
 }
 
